@@ -22,6 +22,7 @@ TRUSTED = [
 ASSUMPTIONS = ["outcomes are exact rationals or integral floats (no float rounding in sums)", "memo cleared before each op (C13 covers history)"]
 EXPLANATION = "theorems C03_noargs / C03_selection (poolH = brute-force count of the selected sum, short-circuits included)"
 ORACLE_EVERY = 1
+CASE_TIMEOUT = {"quick": 30, "thorough": 300}  # 12d20 keep-6 legitimately takes ~20 s in the implementation
 
 
 def before_each(case):
